@@ -3,13 +3,14 @@ package main
 import (
 	"fmt"
 	"math"
+	"strings"
 	"time"
 
 	"github.com/fluffle/goirc/client"
 )
 
 func init() {
-	register("C10", "rateLimit run on a scratch Conn in two regimes: exact (lastsent = zero time, so Now().Sub saturates to 2^63-1 ns and badness is chosen to land the new penalty on 10s-1ns, 10s, 10s+1ns, 0, negative-before-floor, ...; compared exactly with the model) and real clock (lastsent = now - gap, elapsed known to an interval between two harness clock reads; the interval Spec is evaluated on the implementation's result); chars 0..1200; non-trivial = penalty' within 2 charges of the 10 s threshold or floored at zero; distinct by (chars, badness, regime, target)", c10)
+	register("C10", "(b) bursts of 6..9 lines (5..480 bytes) over a real connection with flood protection on, arrival times noted by the server end: Spec.Flood.windowOk (proved of the model: window_ok_of_valid) on (length, arrival time shifted by k x 250 ms); (a) rateLimit run on a scratch Conn in two regimes: exact (lastsent = zero time, so Now().Sub saturates to 2^63-1 ns and badness is chosen to land the new penalty on 10s-1ns, 10s, 10s+1ns, 0, negative-before-floor, ...; compared exactly with the model) and real clock (lastsent = now - gap, elapsed known to an interval between two harness clock reads; the interval Spec is evaluated on the implementation's result); chars 0..1200; non-trivial = penalty' within 2 charges of the 10 s threshold or floored at zero; distinct by (chars, badness, regime, target)", c10)
 }
 
 func c10(c *Ctx) {
@@ -107,4 +108,67 @@ func c10(c *Ctx) {
 		}
 	}
 	c.RunCases(cases)
+	c10Wire(c)
+}
+
+// c10Wire: the rule seen from the server's side. A client with flood protection on sends a burst over a real
+// connection; the server notes when every line (registration lines included) arrives. `Spec.Flood.windowOk` - which
+// `Props.C10.window_ok_of_valid` proves of every run of the model - is evaluated on (length, arrival time). A line
+// can only arrive later than the model's write time, never earlier; a late *first* line of a window would shrink the
+// window, so arrival k is shifted by k x 250 ms before judging (sound as long as a sleep overshoots by less than that;
+// a change that lets lines through more than 250 ms early is still seen).
+func c10Wire(c *Ctx) {
+	for s := 0; s < c.Pick(1, 4); s++ {
+		n := c.R.Range(6, 9)
+		var lens []int
+		for i := 0; i < n; i++ {
+			lens = append(lens, []int{5, 20, 60, 119, 120, 121, 300, 480}[c.R.N(8)])
+		}
+		desc := fmt.Sprintf("burst of %d lines of lengths %v over a real connection with flood protection on", n, lens)
+		c.Journal("C10 wire: " + desc)
+		sess, err := newSession(func(cfg *client.Config) { cfg.Flood = false }, nil)
+		if err != nil {
+			c.Res.Inconclusive++
+			continue
+		}
+		t0 := time.Now()
+		go func() {
+			for i, l := range lens {
+				// every kind of line is subject to the rule: commands of the API, replies to server PINGs, raw lines
+				pad := func(prefix string) string {
+					for len(prefix) < l {
+						prefix += "x"
+					}
+					return prefix
+				}
+				switch (i + s + int(c.Seed)) % 4 {
+				case 0:
+					sess.conn.Raw(pad("PRIVMSG #c :"))
+				case 1:
+					sess.conn.Pong(pad("t"))
+				case 2:
+					sess.conn.Notice("#c", pad(""))
+				default:
+					sess.conn.Raw(pad("PONG :"))
+				}
+			}
+		}()
+		ok := sess.srv.WaitLines(2+n, 90*time.Second)
+		lines, times := sess.srv.Lines(), sess.srv.LineTimes()
+		sess.close()
+		c.Res.Traces++
+		if !ok || len(lines) < 2+n {
+			c.Res.Inconclusive++
+			c.Dist("wire-burst/incomplete")
+			continue
+		}
+		var obs, shown []string
+		for k := range lines {
+			w := times[k].Sub(t0).Nanoseconds() + int64(k)*int64(250*time.Millisecond)
+			obs = append(obs, fmt.Sprintf("%d:%d", len(lines[k]), w))
+			shown = append(shown, fmt.Sprintf("%dB@%.2fs", len(lines[k]), times[k].Sub(t0).Seconds()))
+		}
+		c.RunCases([]Case{{Desc: desc + ": " + strings.Join(shown, " "), Spec: []string{"spec10w " + strings.Join(obs, ",")}, Tag: "wire-burst",
+			Key: fmt.Sprintf("%v/%d/%d", lens, s, c.Seed), Replay: map[string]interface{}{"op": "wire-burst", "lengths": lens, "arrivals": shown}}})
+	}
 }
